@@ -360,7 +360,7 @@ func genDid(c *Ctx) {
 			hx.WriteByte(hexs[b&15])
 		}
 		for _, t := range []string{"", "did:key:", "did:key:z", "did:key", "did:web:" + t0[8:], "DID:KEY:" + t0[8:], t0[:8] + "f" + hx.String(), t0[:8] + "Z" + t0[9:],
-			t0 + "#" + t0[8:], t0 + "#", t0 + "#key-1", t0 + "#" + t0[8:] + "#" + t0[8:], t0 + "?x=1", t0 + "/path", t0 + ";v=1", t0 + "\n", t0 + " ", " " + t0, t0 + "0", t0 + "O", t0 + "I", t0 + "l", t0[:8] + "z1" + t0[9:], t0[:8] + "z11" + t0[9:], t0[:8] + "m" + t0[9:], t0[:8] + "\x00" + t0[9:], "did:key:z1", "did:key:z11111",
+			t0 + "#" + t0[8:], t0 + "#", t0 + "#key-1", t0 + "#" + t0[8:] + "#" + t0[8:], t0 + ":x", t0 + ":", t0 + "::", t0 + ":not base58 at all!", t0 + ":" + t0[8:], "did:key:zA:" + t0[8:], t0[:7] + "::" + t0[8:], t0 + "?x=1", t0 + "/path", t0 + ";v=1", t0 + "\n", t0 + " ", " " + t0, t0 + "0", t0 + "O", t0 + "I", t0 + "l", t0[:8] + "z1" + t0[9:], t0[:8] + "z11" + t0[9:], t0[:8] + "m" + t0[9:], t0[:8] + "\x00" + t0[9:], "did:key:z1", "did:key:z11111",
 			mk(0, nil), mk(0xed, nil), mk(0x55, []byte{1, 2, 3}), mk(1<<63-1, []byte{1}), "did:key:z" + base58.Encode([]byte{0x80}), "did:key:z" + base58.Encode(bytes.Repeat([]byte{0xff}, 10))} {
 			didParseCase(c, "did/text", t)
 		}
